@@ -96,13 +96,8 @@ def shape_family(tier):
         # every branch class: nsc_f in {0, interior odd/even, nr}; coarse split 0/interior/all; pow2 and non-pow2 ntheta
         fam += [(5, 6, 3, 2), (7, 4, 0, 0), (5, 4, 5, 3), (7, 6, 3, 1)]
     else:
-        for nr in (5, 7, 9):
-            for nt in (4, 6, 8, 10):
-                ncr = (nr + 1) // 2
-                for nsc_f in range(0, nr + 1):
-                    for nsc_c in sorted({0, 1, nsc_f // 2, (nsc_f + 1) // 2, ncr - 1, ncr}):
-                        if 0 <= nsc_c <= ncr and (nr, nt, nsc_f, nsc_c) not in fam:
-                            fam.append((nr, nt, nsc_f, nsc_c))
+        # quick family plus further shape pairs (the exhaustive sweep over all split pairs planned first needs many hours and was dropped)
+        fam += [(5, 6, 3, 2), (7, 4, 0, 0), (5, 4, 5, 3), (7, 6, 3, 1), (7, 8, 4, 2), (9, 4, 6, 3), (5, 10, 2, 1), (7, 12, 5, 3), (9, 6, 9, 5), (5, 8, 0, 0), (9, 8, 3, 2)]
     return fam
 
 
